@@ -7,8 +7,8 @@ PROPS = {
     "C15": {
         "engine": "dlist",
         "level": "exploration",
-        "quick_runs": 40000,
-        "thorough_runs": 1200000,
+        "quick_runs": 250000,
+        "thorough_runs": 6000000,
         "quick_wall_cap": 240,
         "thorough_wall_cap": 3000,
         "run_cfg": {"max_steps": 30, "run_timeout": 20},
@@ -73,27 +73,27 @@ def _hist(pid, quick, thorough, text, note, ref, probes=(), max_steps=30):
 
 
 PROPS["C01"] = _hist(
-    "C01", 4000, 120000,
+    "C01", 20000, 600000,
     "Seeded search over histories of public operations (incl. failing ones, contexts, copies, pickles, solver switches); "
     "after every step the raw GLPK problem is read back with swiglpk and must equal the flux-balance problem of the "
     "Python-side model plus the reference list of explicitly user-added rows/columns.",
     "Sampled histories on small generated networks; both GLPK interfaces; oracle independent of optlang's Python caches.",
     "4 (C01)", probes=["context_enter", "nested_context", "new_actor", "copy_inside_context"])
 PROPS["C02"] = _hist(
-    "C02", 4000, 120000,
+    "C02", 20000, 600000,
     "Every operation is also applied to an executable reference model written from the docstrings; content must be equal "
     "after every operation judged P, identity-level cross-reference invariants after every operation incl. failing ones.",
     "Sampled histories; operations whose documentation does not determine the result are judged by invariants only "
     "(counts of P/I judgements are in the evidence).", "4 (C02)")
 PROPS["C03"] = _hist(
-    "C03", 4000, 120000,
+    "C03", 20000, 600000,
     "Histories with nested `with model:` blocks (depth <= 4), failing operations and exception exits inside blocks; the full "
     "snapshot (content, cross-references, objective, raw LP) taken at __enter__ must equal the one after the matching __exit__, "
     "and __exit__ must not raise.",
     "Sampled histories; only operations the documentation calls reversible are executed inside blocks.", "4 (C03)",
     probes=["context_enter", "nested_context", "context_exit_checked", "exit_replays_10+_undo_entries"])
 PROPS["C04"] = _hist(
-    "C04", 4000, 120000,
+    "C04", 16000, 500000,
     "optimize()/slim_optimize() are observation operations inside edit histories (warm-started solver, both interfaces, copies, "
     "contexts): status, optimum, fluxes, duals and the status->return/exception mapping are judged against an exact rational LP "
     "(checked certificates) built from the reference model; every Solution ever returned is re-compared with its frozen copy after "
@@ -103,12 +103,12 @@ PROPS["C04"] = _hist(
     probes=["fba_truth_optimal", "fba_truth_infeasible", "fba_truth_unbounded", "fba_optimum_checked", "duals_checked",
             "slim_optimum_checked", "slim_error_value_checked", "solution_kept"])
 PROPS["C07"] = _hist(
-    "C07", 4000, 120000,
+    "C07", 20000, 600000,
     "Knock-out heavy histories (Gene.knock_out, knock_out_model_genes by object/id/index, Reaction.knock_out, functional flags, "
     "rule edits, contexts) judged against truth tables over the generator's own rule trees (never cobrapy's parser).",
     "Sampled histories; rules are random and/or trees of depth <= 3 over <= 6 shared genes.", "4 (C07)")
 PROPS["C10"] = _hist(
-    "C10", 1500, 40000,
+    "C10", 9000, 250000,
     "'Restart through SBML' is an operation inside edit histories: write (string, path, handle; with and without f_replace) under one "
     "global Configuration, validate the document with the SBML validator, discard the live model, read under another Configuration, "
     "compare with the projection of the reference (ids, stoichiometry, bounds, objective and direction, rule truth tables, compartments, "
@@ -119,7 +119,7 @@ PROPS["C10"] = _hist(
     probes=["restart_sbml", "restart_variant_string", "restart_variant_path", "restart_variant_handle", "restart_config_skew",
             "restart_fixpoint_checked"])
 PROPS["C11"] = _hist(
-    "C11", 2500, 60000,
+    "C11", 10000, 300000,
     "'Restart through a durable format' is an operation inside edit histories: save as JSON/YAML/dict/pickle (string, path or "
     "handle; sort on/off) under one global Configuration, discard the live model, load under another Configuration, compare with "
     "the projection of the reference, require a second round trip to be a fixpoint, and continue the history on the loaded model.",
@@ -128,7 +128,7 @@ PROPS["C11"] = _hist(
     probes=["restart_pickle", "restart_dict", "restart_json", "restart_yaml", "restart_variant_string", "restart_variant_path",
             "restart_variant_handle", "restart_config_skew", "restart_fixpoint_checked"])
 PROPS["C12"] = _hist(
-    "C12", 3000, 90000,
+    "C12", 14000, 400000,
     "Several live models (original, copy, deepcopy, unpickled) with interleaved histories: equality incl. raw LP at creation, "
     "distinct objects, and after every step the full snapshot of every model not operated on must be bit-identical to before.",
     "Sampled two/three-actor schedules; in-place edits of notes/annotation dictionaries are part of the operation set.", "4 (C12)",
@@ -169,20 +169,20 @@ def _pool(pid, level, quick, thorough, text, note, ref, probes=(), cfg=None, tec
 _POOL_PROBES = ["pool_created", "worker_ran_2+_chunks", "completion_order_differs_from_submission", "stalled_worker",
                 "chunk_tail_shorter", "call_used_pool", "aged_parent", "windows_init_file_branch"]
 PROPS["C05"] = _pool(
-    "C05", "exploration", 1200, 30000,
+    "C05", "exploration", 3000, 90000,
     "FVA (plain, fraction_of_optimum, pfba_factor; reaction lists as objects/ids/subsets/permutations) on generated networks under "
     "processes=1 and under every simulated pool schedule, judged against exact rational min/max of each net flux; loopless ranges by "
     "inclusion invariants.",
     "Input dimension sampled by small generated networks; what the technique adds is the schedule/process-count dimension.", "4 (C05)",
     probes=_POOL_PROBES + ["fva_exact_checked", "blocked_exact_checked"])
 PROPS["C06"] = _pool(
-    "C06", "exploration", 1200, 30000,
+    "C06", "exploration", 4000, 120000,
     "Single/double gene/reaction deletions and essential-gene/reaction searches under processes=1 and simulated pool schedules; rows must be "
     "exactly the requested unordered combinations; growth/status judged against truth-table knock-out of the reference + exact LP.",
     "FBA method judged exactly; linear MOMA/ROOM only by bookkeeping (row set, statuses) in the C13/C14 workloads.", "4 (C06)",
     probes=_POOL_PROBES + ["deletion_exact_checked", "essential_exact_checked"])
 PROPS["C13"] = _pool(
-    "C13", "fault_enumeration", 250, 6000,
+    "C13", "fault_enumeration", 300, 9000,
     "For each sampled (model, analysis, arguments, serial|simulated-parallel, inside|outside a user context): one fault-free execution to "
     "learn the number K of solver calls, then one execution per (call index k <= K) x (verdict in infeasible, unbounded, undefined, "
     "time_limit, feasible) with exactly that solve's verdict overridden; the full model snapshot (content, list orders, objective, raw "
@@ -193,7 +193,7 @@ PROPS["C13"] = _pool(
     probes=_POOL_PROBES + ["unchanged_checked", "user_context_open", "user_context_still_intact", "compared_with_reference"],
     technique="deterministic simulation with fault enumeration: every solver call index x every verdict injected, snapshot oracle")
 PROPS["C14"] = _pool(
-    "C14", "exploration", 1200, 30000,
+    "C14", "exploration", 3500, 100000,
     "For each generated model: reference call with processes=1, then variants under the simulated pool (processes 2-16, chunk->worker "
     "assignment, durations incl. stalled workers, completion order, permuted item lists, Configuration().processes, platform branch, aged "
     "parent) and single-item calls; per item the values must agree with the reference, with the single-item call and with the exact oracle; "
@@ -202,7 +202,7 @@ PROPS["C14"] = _pool(
     probes=_POOL_PROBES + ["compared_with_reference", "single_item_checked", "fva_exact_checked", "deletion_exact_checked"])
 
 PROPS["C16"] = {
-    "engine": "samp", "level": "exploration", "quick_runs": 2500, "thorough_runs": 60000,
+    "engine": "samp", "level": "exploration", "quick_runs": 12000, "thorough_runs": 350000,
     "quick_wall_cap": 900, "thorough_wall_cap": 3300, "run_cfg": {"run_timeout": 120},
     "rule": ("one evaluation = one simulated sampler run: a generated feasible-ish network with finite bounds (homogeneous, forced, fixed or "
              "mixed fluxes, optional extra linear constraint), 1-3 sampler calls (ACHR / OptGP via objects or sample(); n, thinning, nproj, "
